@@ -85,6 +85,11 @@ class Module:
                     self.functions[name] = ref
             else:
                 self.unproved[q] = (ta, tb)
+                try:
+                    tgt0 = self.classes[cls][name] if cls else self.functions[name]
+                    present(tgt0)
+                except Exception:
+                    pass
                 # not proved: the rules look at the current version.  Branch polarity is brought to the spelling the confirmed
                 # version uses (`if not NLgeom: A else: B` -> `if NLgeom: B else: A` when the confirmed version tests `NLgeom`)
                 try:
@@ -115,6 +120,86 @@ class Module:
 
 _mods = {}
 _gsigs = None
+
+
+def present(fn):
+    """local, semantics-preserving rewrites applied to a changed function before the rules look at it (spelling only):
+    f(*t) / f(**d) with t / d a tuple / dict literal bound once in the function -> the arguments written out;
+    a = b = v -> a = v; b = v  (v a name or constant)"""
+    single = {}
+    counts = {}
+    for n in ast.walk(fn):
+        if isinstance(n, ast.Name) and isinstance(n.ctx, ast.Store):
+            counts[n.id] = counts.get(n.id, 0) + 1
+    for n in ast.walk(fn):
+        if isinstance(n, ast.Assign) and len(n.targets) == 1 and isinstance(n.targets[0], ast.Name) and counts.get(n.targets[0].id) == 1:
+            single[n.targets[0].id] = n.value
+
+    def lit_seq(v, depth=0):
+        if isinstance(v, ast.Name) and v.id in single and depth < 3:
+            return lit_seq(single[v.id], depth + 1)
+        if isinstance(v, (ast.Tuple, ast.List)) and not any(isinstance(e, ast.Starred) for e in v.elts):
+            return list(v.elts)
+        if isinstance(v, ast.BinOp) and isinstance(v.op, ast.Add):
+            a, b = lit_seq(v.left, depth + 1), lit_seq(v.right, depth + 1)
+            return a + b if a is not None and b is not None else None
+        return None
+
+    def lit_map(v, depth=0):
+        if isinstance(v, ast.Name) and v.id in single and depth < 3:
+            return lit_map(single[v.id], depth + 1)
+        if isinstance(v, ast.Dict) and all(isinstance(k, ast.Constant) and isinstance(k.value, str) for k in v.keys):
+            return [(k.value, x) for k, x in zip(v.keys, v.values)]
+        if isinstance(v, ast.Call) and dotted(v.func) == 'dict' and not v.args and all(k.arg for k in v.keywords):
+            return [(k.arg, k.value) for k in v.keywords]
+        return None
+    import copy as _copy
+    for c in [n for n in ast.walk(fn) if isinstance(n, ast.Call)]:
+        if any(isinstance(a, ast.Starred) for a in c.args):
+            new, ok = [], True
+            for a in c.args:
+                if isinstance(a, ast.Starred):
+                    seq = lit_seq(a.value)
+                    if seq is None:
+                        ok = False
+                        break
+                    new += [_copy.deepcopy(e) for e in seq]
+                else:
+                    new.append(a)
+            if ok:
+                c.args = new
+        if any(k.arg is None for k in c.keywords):
+            new, ok = [], True
+            for k in c.keywords:
+                if k.arg is None:
+                    mp = lit_map(k.value)
+                    if mp is None:
+                        ok = False
+                        break
+                    new += [ast.keyword(arg=a, value=_copy.deepcopy(x)) for a, x in mp]
+                else:
+                    new.append(k)
+            if ok and len({k.arg for k in new}) == len(new):
+                c.keywords = new
+
+    def split_blocks(stmts):
+        out = []
+        for st in stmts:
+            for f in ('body', 'orelse', 'finalbody'):
+                b = getattr(st, f, None)
+                if isinstance(b, list) and b and isinstance(b[0], ast.stmt) and not isinstance(st, (ast.FunctionDef, ast.ClassDef)):
+                    setattr(st, f, split_blocks(b))
+            if isinstance(st, ast.Try):
+                for h in st.handlers:
+                    h.body = split_blocks(h.body)
+            if isinstance(st, ast.Assign) and len(st.targets) > 1 and isinstance(st.value, (ast.Name, ast.Constant)):
+                for t in st.targets:
+                    out.append(ast.copy_location(ast.Assign(targets=[t], value=_copy.deepcopy(st.value)), st))
+            else:
+                out.append(st)
+        return out
+    fn.body = split_blocks(fn.body)
+    ast.fix_missing_locations(fn)
 
 
 def equiv_global_sigs():
